@@ -104,6 +104,22 @@ def _work(job):
             r2, b2 = _cli(s2.to_smt2(), timeout_ms / 1000.0)
             if r2 != 'unknown':
                 r, backend = r2, b2
+            elif instantiate == 'fallback':
+                # last resort: the original (uninstantiated) query once more with the full budget -- the 3 s first stage is
+                # short when all cores are busy -- in process and on the CLI portfolio
+                s3 = z3.Solver()
+                s3.set('timeout', timeout_ms)
+                s3.set('random_seed', 11)
+                for h in hyps:
+                    s3.add(h)
+                s3.add(neg)
+                r3 = str(s3.check())
+                if r3 != 'unknown':
+                    r, backend = r3, 'z3'
+                else:
+                    r4, b4 = _cli(smt, timeout_ms / 1000.0)
+                    if r4 != 'unknown':
+                        r, backend = r4, b4
         return r, time.time() - t0, backend, reason
     except Exception as e:  # noqa
         return 'error', time.time() - t0, 'z3', repr(e)
